@@ -43,7 +43,9 @@ Proof.
     inv_some H. intros i0 (X & Y). lia.
   - (* CInitBuf: no job in flight *)
     intros i0 (X & Y). lia.
-  - inv_some H. eapply keeps_ext with (s0 := set_sr _ (set_pl _ s)); [reflexivity..|]. apply gr_keeps. apply gr_finish_op.
+  - destruct (ldm (mt s)); inv_some H.
+    + eapply keeps_ext with (s0 := set_sr _ (set_pl _ s)); [reflexivity..|]. apply gr_keeps. apply gr_finish_op.
+    + eapply keeps_ext with (s0 := set_sr _ (set_pl _ s)); [reflexivity..|]. apply gr_keeps. apply gr_finish_op.
 Qed.
 
 (* a pool thread only writes the job description of the slot it holds *)
